@@ -8,9 +8,12 @@ import (
 	"os"
 	"os/exec"
 	"path/filepath"
+	"runtime/debug"
 	"strconv"
 	"strings"
 	"time"
+
+	"github.com/alecthomas/participle/v2/lexer"
 )
 
 func init() {
@@ -178,4 +181,51 @@ func genCompare(args []string) error {
 	}
 	fmt.Fprintf(w, "DONE\t%d\t%d\t%d\t%d\t%d\n", n, tol, tolDiff, gendiff, specdiff)
 	return nil
+}
+
+func init() { commands["gen-deep"] = genDeep }
+
+// gen-deep <raw.json> <case id> <unit symbols> <n> <max stack bytes>: lexes the unit repeated n times with the generated and
+// the runtime lexer in this (child) process under a stack limit; prints the token counts.
+func genDeep(args []string) error {
+	raw, err := readRaw(args[0])
+	if err != nil {
+		return err
+	}
+	n, _ := strconv.Atoi(args[3])
+	limit, _ := strconv.Atoi(args[4])
+	debug.SetMaxStack(limit)
+	for i := range raw.Cases {
+		c := &raw.Cases[i]
+		if c.ID != args[1] {
+			continue
+		}
+		in := strings.Repeat(raw.decodeInput(args[2]), n)
+		count := func(d lexer.Definition) string {
+			if d == nil {
+				return "nodef"
+			}
+			l, err := d.Lex("f", strings.NewReader(in))
+			if err != nil {
+				return "initerr"
+			}
+			k := 0
+			for {
+				t, err := l.Next()
+				if err != nil {
+					return fmt.Sprintf("err after %d", k)
+				}
+				if t.EOF() {
+					return fmt.Sprintf("%d tokens EOF@%d", k, t.Pos.Offset)
+				}
+				k++
+			}
+		}
+		rt, _ := runtimeMaker(c)
+		gen, _ := generatedMaker(c)
+		fmt.Printf("runtime\t%s\n", count(rt))
+		fmt.Printf("generated\t%s\n", count(gen))
+		return nil
+	}
+	return fmt.Errorf("no case %s", args[1])
 }
